@@ -269,6 +269,11 @@ impl<RW: QueueRW<T>, T> MultiQueue<RW, T> {
         };
 
         let qarc = Arc::new(queue);
+        #[cfg(multiqueue2_verif)]
+        crate::verif_hooks::register_queue(
+            MultiQueue::<RW, T>::verif_snapshot,
+            &*qarc as *const MultiQueue<RW, T> as *const (),
+        );
 
         let mwriter = InnerSend {
             queue: qarc.clone(),
@@ -1018,6 +1023,69 @@ impl Wait for FutWait {
     fn needs_notify(&self) -> bool {
         true
     }
+
+    #[cfg(multiqueue2_verif)]
+    fn verif_layout(&self) -> Vec<(&'static str, usize)> {
+        vec![("cons_parked", self.parked.addr())]
+    }
+
+    #[cfg(multiqueue2_verif)]
+    fn verif_parked(&self) -> Option<usize> {
+        Some(unsafe { self.parked.peek().len() })
+    }
+}
+
+#[cfg(multiqueue2_verif)]
+impl FutWait {
+    pub fn verif_register_prod(&self) {
+        crate::verif_hooks::register_extra("prod_parked", self.parked.addr());
+    }
+}
+
+#[cfg(multiqueue2_verif)]
+impl<RW: QueueRW<T>, T> MultiQueue<RW, T> {
+    /// Raw state of the queue behind `q` (all agents suspended)
+    pub unsafe fn verif_snapshot(q: *const ()) -> crate::verif_hooks::Snapshot {
+        let this = &*(q as *const MultiQueue<RW, T>);
+        let cap = this.capacity as usize;
+        let mut snap = crate::verif_hooks::Snapshot::default();
+        snap.capacity = cap;
+        snap.head = this.head.verif_raw();
+        snap.tail_cache = this.tail_cache.raw();
+        snap.writers = this.writers.raw();
+        for i in 0..cap as isize {
+            snap.tags.push((*this.data.offset(i)).wraps.raw());
+            snap.refs.push((*this.refs.offset(i)).refcnt.raw());
+        }
+        let (readers_addr, group, streams, last_pos) = this.tail.verif_state();
+        snap.group = group;
+        snap.streams = streams;
+        snap.last_pos = last_pos;
+        let mem = this.manager.verif_state();
+        snap.signal = this.manager.signal.verif_raw();
+        snap.epoch = mem.epoch;
+        snap.inner_epoch = mem.inner_epoch;
+        snap.tokens = mem.tokens;
+        snap.tofree = mem.tofree;
+        snap.wait_to_free = mem.wait_to_free;
+        snap.layout = mem.layout;
+        snap.layout.push(("head", this.head.verif_addr()));
+        snap.layout
+            .push(("tail_cache", &this.tail_cache as *const AtomicUsize as usize));
+        snap.layout
+            .push(("writers", &this.writers as *const AtomicUsize as usize));
+        snap.layout.push(("readers", readers_addr));
+        snap.layout.push(("data", this.data as usize));
+        snap.layout
+            .push(("data_stride", mem::size_of::<QueueEntry<T>>()));
+        snap.layout.push(("refs", this.refs as usize));
+        snap.layout.push(("refs_stride", mem::size_of::<RefCnt>()));
+        snap.layout.extend(this.waiter.verif_layout());
+        if let Some(n) = this.waiter.verif_parked() {
+            snap.layout.push(("cons_parked_len", n));
+        }
+        snap
+    }
 }
 
 //////// Clone implementations
@@ -1182,6 +1250,8 @@ pub fn futures_multiqueue<RW: QueueRW<T>, T>(
 ) -> (FutInnerSend<RW, T>, FutInnerRecv<RW, T>) {
     let cons_arc = Arc::new(FutWait::new());
     let prod_arc = Arc::new(FutWait::new());
+    #[cfg(multiqueue2_verif)]
+    prod_arc.verif_register_prod();
     let (tx, rx) = MultiQueue::new_internal(capacity, cons_arc.clone());
     let ftx = FutInnerSend {
         writer: tx,
@@ -1210,6 +1280,8 @@ pub fn futures_multiqueue_with<RW: QueueRW<T>, T>(
 ) -> (FutInnerSend<RW, T>, FutInnerRecv<RW, T>) {
     let cons_arc = Arc::new(FutWait::with_spins(try_spins, yield_spins));
     let prod_arc = Arc::new(FutWait::with_spins(try_spins, yield_spins));
+    #[cfg(multiqueue2_verif)]
+    prod_arc.verif_register_prod();
     let (tx, rx) = MultiQueue::new_internal(capacity, cons_arc.clone());
     let ftx = FutInnerSend {
         writer: tx,
